@@ -1428,3 +1428,60 @@ func (p *Prog) moduleSendsOnField(fld *types.Var) bool {
 	}
 	return false
 }
+
+// ---------- R-WG/self: a goroutine counted in a WaitGroup never waits for that WaitGroup ----------
+
+// ruleWGSelfWait: a goroutine that calls X.Done() for a WaitGroup field X
+// (it is one of the goroutines X counts) must not reach, through any chain of
+// calls, a Wait on the same field: it would wait for itself. (Kill's cleanup
+// waits for clientWaitGroup; a management goroutine registered there that
+// calls Kill never finishes, and neither does the cleanup behind the wait -
+// the socket directory stays.)
+func ruleWGSelfWait(c *Ctx) {
+	p := c.P
+	ci := p.Calls()
+	n, bad := 0, false
+	for _, f := range p.Funcs {
+		if !notTesting(p, f) {
+			continue
+		}
+		for _, cs := range ci.sites[f] {
+			if cs.Kind != "go" {
+				continue
+			}
+			for _, ce := range cs.Callees {
+				// the WaitGroups this goroutine is counted in
+				descs := map[string]bool{}
+				for _, call := range ce.Calls() {
+					if p.CalleeName(ce, call) == "sync.WaitGroup.Done" {
+						if d := p.wgDesc(ce, call); d != "" && !strings.HasPrefix(d, "local ") {
+							descs[d] = true
+						}
+					}
+				}
+				if len(descs) == 0 {
+					continue
+				}
+				n++
+				reach := p.ReachableFuncs([]*Func{ce}, false)
+				for rf := range reach {
+					for _, call := range rf.Calls() {
+						if p.CalleeName(rf, call) != "sync.WaitGroup.Wait" {
+							continue
+						}
+						if d := p.wgDesc(rf, call); descs[d] {
+							bad = true
+							c.R.Violate("R-WG/self", p.Pos(call), ce.Name, "a goroutine counted in "+pathDisplay(d)+" does not wait for it",
+								"the goroutine started at "+p.Pos(cs.Call)+" calls "+pathDisplay(d)+".Done() when it ends, and can reach this Wait on the same WaitGroup (in "+rf.Name+"): it waits for itself, so it never ends, and whatever follows the Wait (removing the socket directory, clearing the runner) never runs", nil)
+						}
+					}
+				}
+			}
+		}
+	}
+	if n == 0 {
+		c.R.Undecided("R-WG/self", "", "instance-floor", "no goroutine that calls Done on a WaitGroup field found")
+	} else if !bad {
+		c.R.Hold("R-WG/self", "-", "", "goroutines counted in a WaitGroup do not wait for it", fmt.Sprintf("%d counted goroutines, none reaches a Wait on its own WaitGroup", n), true)
+	}
+}
